@@ -25,6 +25,9 @@ func (p *c03) Setup(env *fw.Env) error {
 }
 
 func (p *c03) Case(i int) fw.Case {
+	if i%16 == 3 {
+		return fw.Case{Kind: "question-in-range-source"}
+	}
 	if i%8 == 7 {
 		return fw.Case{Kind: "forwarded-question-arguments"}
 	}
@@ -148,6 +151,17 @@ func (p *c03) Run(c fw.Case, r *fw.Rec) {
 // build generates the experiment of one case.
 func (p *c03) build(c fw.Case, r *fw.Rec) pairBuild {
 	rnd := p.rnd(c.Idx)
+	if c.Kind == "question-in-range-source" {
+		// `for v <- f()?`: the in-place expansion of ? is emitted inside the loop body (probe, known finding)
+		fail := rnd.Chance(1, 2)
+		form := fw.Pick(rnd, []string{"for v <- many(1, %v)? {", "for _, v := range many(1, %v)? {"})
+		prog := c03Prelude + "func many(k int, fail bool) ([]int, error) {\n\tCalls[k]++\n\tif fail {\n\t\treturn nil, mk(k)\n\t}\n\treturn [k, k + 1], nil\n}\n\nfunc s1() error {\n\t" + fmt.Sprintf(form, fail) + "\n\t\tShow(\"range-source\", 1, v)\n\t}\n\treturn nil\n}\n\nfunc main() {\n\techo \"range-source:\", 1, \"returned\", Describe(1, s1()), \"calls\", Calls[1]\n}\n"
+		exp := "range-source: 1 values 1\nrange-source: 1 values 2\nrange-source: 1 returned nil calls 1\n"
+		if fail {
+			exp = fmt.Sprintf("range-source: 1 returned wraps-original=true frame{code=%q file=%q line=%d func=%q} calls 1\n", fmt.Sprintf("many(1, %v)", fail), "/p/main.xgo", strings.Count(c03Prelude, "\n")+10, "main.s1")
+		}
+		return pairBuild{XGo: map[string]string{"main.xgo": prog, "helper.go": c03Helper}, Expect: &exp, Info: map[string]string{"linetags": "1", "probe": "question-operator-in-range-source"}}
+	}
 	src := &srcB{}
 	var want strings.Builder
 	src.add(c03Prelude)
